@@ -1589,7 +1589,8 @@ func execCase(ops []string) (out []string, hung string) {
 			bname, e2 := kit.Unesc(t[3])
 			var pts []*point
 			var toks []string
-			ok := e1 == nil && e2 == nil && l.db != "" && l.rp != "" && bname != "" && !(l.db == "bd" && l.rp == "autogen")
+			ok := e1 == nil && e2 == nil && l.db != "" && l.rp != "" && bname != "" && !(l.db == "bd" && l.rp == "autogen") &&
+				r.everDef[id] == 0 && r.running[id] == nil // (a batch task must not reuse the id of a stream task: they share tm.tasks)
 			if ok {
 				for _, x := range strings.Split(t[4], ",") {
 					p, err := parsePoint(x)
